@@ -88,6 +88,15 @@ class _Inner(object):
     prop = "inner-prop"
 
 
+class _SlotRecord(object):
+    __slots__ = ("value",)
+
+
+class _StateRaises(object):
+    def __getstate__(self):
+        raise RuntimeError("state not available")
+
+
 def _target(H, server):
     @server.expose
     class Target(object):
@@ -242,17 +251,19 @@ def server_probes(classes):
         # the fallback for content that cannot be serialised
         fmt = "Error serializing exception: %s. Original exception: %s: %s"
         ok_text, ok_cls, ok_tb = True, True, True
-        for method, vargs in (("boom", ()), ("__getattr__", ("prop",)), ("__setattr__", ("prop", 1))):
+        for method, vargs, bad in (("boom", (), object()), ("__getattr__", ("prop",), object()), ("__setattr__", ("prop", 1), object()),
+                                   ("boom", (), _SlotRecord()), ("boom", (), _StateRaises()), ("__getattr__", ("prop",), _SlotRecord())):
+            # the failure of dumps is a TypeError for object(), an AttributeError for the unfilled slot, a RuntimeError for __getstate__
             e = ValueError(MARK, 2)
-            e.bad = object()
+            e.bad = bad
             S.H["exc"] = e
+            derr = None
             try:
                 S.ser.dumps(e)
-                raise RuntimeError("probe: object() turned out to be serialisable")
-            except RuntimeError:
-                raise
             except Exception as x:
                 derr = x
+            if derr is None:
+                raise RuntimeError("probe: %r turned out to be serialisable" % (bad,))
             reply, escaped = S.call(method, vargs)
             if reply is None or not (reply.flags & protocol.FLAGS_EXCEPTION):
                 ok_cls = False
